@@ -20,7 +20,7 @@ EXPLANATION = (
     "stability on probe frames; mutations performed by user callbacks."
 )
 LEVEL_RULE = "one obligation per write site reaching a shared schema/check/dtype object from an observer entry"
-FLOORS = {"R1": 10, "R2": 4, "R3": 1, "R4": 10}
+FLOORS = {"R1": 10, "R2": 4, "R3": 1, "R4": 10, "R5": 1}
 
 OBSERVER_METHODS = ["__repr__", "__str__", "__eq__", "properties", "dtypes", "get_dtypes", "get_metadata", "strategy",
                     "example", "strategy_component", "to_yaml", "to_json", "to_script", "coerce_dtype", "validate",
@@ -179,7 +179,29 @@ def r4_transforms(ctx):
                    "; ".join(f"`{e.site[2]}` ({site_loc(e)}) writes self{''.join('.' + p for p in e.path[:3])}" for e in effs[:3]))
 
 
+def r5_setstate(ctx):
+    """copy.copy() of a schema must not share the attribute dict with the original."""
+    from ..effects import aliasing_setstate
+    ix = ctx.ix
+    n = 0
+    for name, lst in ix.methods_by_name.items():
+        if name != "__setstate__":
+            continue
+        for f in lst:
+            if "pyspark" in f.module.path or not f.module.path.startswith("pandera/api/"):
+                continue
+            n += 1
+            bad = aliasing_setstate(f)
+            ctx.ob("R5", f, f"{f.short} does not alias the state dict", not bad,
+                   "state is copied / merged" if not bad else
+                   "`self.__dict__ = state`: copy.copy(obj) passes obj.__dict__ itself as state, so the copy and the original "
+                   "share one attribute dict - update_checks()/set_checks() (copy.copy + assignment) modify their receiver")
+    if n == 0:
+        ctx.ob("R5", "pandera/api", "no custom __setstate__ on schema classes", True, "default copy protocol")
+
+
 def run(ctx):
+    r5_setstate(ctx)
     r1_who_may_write(ctx)
     r2_frozen(ctx)
     r3_cache(ctx)
